@@ -141,6 +141,57 @@ func supplyQueries(e *Exec) []Disc {
 			}
 		}
 	}
+	// single pages from every possible key with every limit, in both directions (a client may change the limit
+	// between pages or resume from a key it kept): the page holds exactly the expected run of denominations,
+	// each with the expected amount
+	sorted := append([]string{}, denoms...)
+	sort.Strings(sorted)
+	for _, path := range []string{"/mainchain.enterprise.v1.Query/TotalSupply", "/mainchain.enterprise.v1.Query/TotalSupplyOverwrite"} {
+		for di, d := range sorted {
+			for limit := 1; limit <= len(sorted); limit++ {
+				for _, rev := range []bool{false, true} {
+					if rev && di == len(sorted)-1 {
+						// a reverse page *from the greatest key* is a request no response ever suggests (in reverse order
+						// the greatest key comes first, without a key); SDK 0.47.13's query.getIterator panics on it
+						// (Next() past the end, then Key()) for every paginated store, the bank's own endpoint included:
+						// substrate behaviour, the same with and without this chain's code (DESIGN 13)
+						continue
+					}
+					var r enttypes.QueryTotalSupplyResponse
+					err := w.Query(path, &enttypes.QueryTotalSupplyRequest{Pagination: &query.PageRequest{Key: []byte(d), Limit: uint64(limit), Reverse: rev}}, &r)
+					tag := fmt.Sprintf("%s key=%s limit=%d reverse=%v", path[strings.LastIndex(path, "/")+1:], d, limit, rev)
+					if err != nil {
+						add("%s failed: %v", tag, err)
+						continue
+					}
+					var exp []string
+					for k := 0; k < limit; k++ {
+						j := di + k
+						if rev {
+							j = di - k
+						}
+						if j < 0 || j >= len(sorted) {
+							break
+						}
+						exp = append(exp, sorted[j])
+					}
+					var got []string
+					for _, c := range r.Supply {
+						got = append(got, c.Denom)
+						if c.Amount.BigInt().Cmp(want(c.Denom)) != 0 {
+							add("%s lists %s; expected %s%s (bank supply %v, locked %s)", tag, c, want(c.Denom), c.Denom, bank[c.Denom], locked)
+						}
+					}
+					sort.Strings(got)
+					es := append([]string{}, exp...)
+					sort.Strings(es)
+					if strings.Join(got, ",") != strings.Join(es, ",") {
+						add("%s lists %v; expected %v", tag, got, es)
+					}
+				}
+			}
+		}
+	}
 	// EnterpriseSupply / TotalUnlocked / TotalLocked (uint64 fields: beyond 2^64 the query is not judged)
 	bs := bank[feeDenom]
 	if bs == nil {
